@@ -43,6 +43,17 @@ instance {α} [Num α] (a b : α) : Decidable (a < b) := Num.decLt a b
 instance {α} [Num α] (a b : α) : Decidable (a ≤ b) := Num.decLe a b
 instance {α} [Num α] : Inhabited α := ⟨0⟩
 
+/-- one step of the trigonometric recurrence of `initGrid`: (z, sin z, cos z) ↦ (z + z1, sin(z + z1), cos(z + z1))
+computed as `s' = c1·s + s1·c`, `c' = c1·c − s1·s` -/
+def trigStep {α : Type} [Add α] [Sub α] [Mul α] (z1 c1 s1 : α) (t : α × α × α) : α × α × α :=
+  (t.1 + z1, c1 * t.2.1 + s1 * t.2.2, c1 * t.2.2 - s1 * t.2.1)
+
+/-- abscissa `x = 1 + 2/(3π)·((3 + 2s²)·c·s − 3z)` and weight `w = s⁴` of the node at angle z -/
+def nodeX {α : Type} [Add α] [Sub α] [Mul α] [One α] [NatCast α] (o23pi z s c : α) : α :=
+  let s2 := s * s
+  1 + o23pi * ((((3 : Nat) : α) + ((2 : Nat) : α) * s2) * c * s - ((3 : Nat) : α) * z)
+def nodeW {α : Type} [Mul α] (s : α) : α := let s2 := s * s; s2 * s2
+
 structure Grid (α : Type) where
   t : GCType
   maxN : Nat
@@ -71,22 +82,15 @@ def initGrid (points : Nat) (t : GCType) : Grid α := Id.run do
   let c1 := Num.cos z1
   let s1 := Num.sin z1
   let o23pi : α := ((2 : Nat) : α) / (((3 : Nat) : α) * Num.pi)
-  let mut zi1 := z1
-  let mut si1 := s1
-  let mut ci1 := c1
+  let mut tr : α × α × α := (z1, s1, c1)
   for n in [0:M] do
-    let zi := zi1
-    let si := si1
-    let ci := ci1
-    let s2 := si * si
-    w := w.set! (maxN - 1 - n) (s2 * s2)
-    w := w.set! n (s2 * s2)
-    let xn : α := 1 + o23pi * ((((3 : Nat) : α) + ((2 : Nat) : α) * s2) * ci * si - ((3 : Nat) : α) * zi)
+    let (zi, si, ci) := tr
+    w := w.set! (maxN - 1 - n) (nodeW si)
+    w := w.set! n (nodeW si)
+    let xn : α := nodeX o23pi zi si ci
     x := x.set! (maxN - 1 - n) xn
     x := x.set! n (-xn)
-    zi1 := zi + z1
-    si1 := c1 * si + s1 * ci
-    ci1 := c1 * ci - s1 * si
+    tr := trigStep z1 c1 s1 tr
   return { t := t, maxN := maxN, M := M, x := x, w := w }
 
 /-- `sumTerms(f, limit, start, end, shift, skip)`; `f ix` is `f(x[ix], params, ix)` -/
